@@ -58,6 +58,28 @@ def gen_qrdata(repo):
         raise TranslateError('qrdata.h: recode_long is not recode_long_line | recode_long_header')
     gr = strip_comments(read(repo, 'include/qremote/greeting.h'))
     c['ESMTP_8BITMIME'] = int(one(r'esmtp_8bitmime\s*=\s*(0x[0-9a-fA-F]+|\d+)', gr, 'esmtp_8bitmime'), 0)
+    # ---- send_qp: the per-part recode mask  nr_match = (smtpext & esmtp_8bitmime) ? A : B
+    # A and B may be numbers or |-combinations of the recode_* enumerators; they are evaluated with the values of qrdata.h
+    enum = {'recode_8bit': c['RECODE_8BIT'], 'recode_long_line': c['RECODE_LONG_LINE'], 'recode_long_header': c['RECODE_LONG_HEADER']}
+    enum['recode_qp_body'] = enum['recode_8bit'] | enum['recode_long_line']
+    enum['recode_long'] = enum['recode_long_line'] | enum['recode_long_header']
+    def _mask(expr, what):
+        v = 0
+        for t in expr.replace('(', ' ').replace(')', ' ').split('|'):
+            t = t.strip()
+            if re.fullmatch(r'0x[0-9a-fA-F]+|\d+', t):
+                v |= int(t, 0)
+            elif t in enum:
+                v |= enum[t]
+            else:
+                raise TranslateError('send_qp nr_match: cannot evaluate %r in %s' % (t, what))
+        return v
+    sqb = func_body(src, 'send_qp', rel)
+    ma, mb = one(r'nr_match\s*=\s*\(\s*smtpext\s*&\s*esmtp_8bitmime\s*\)\s*\?\s*([^:;]+?)\s*:\s*([^;]+?)\s*;', sqb, 'send_qp nr_match')
+    c['NR_MATCH_8BITMIME'] = _mask(ma, 'the 8BITMIME branch')
+    c['NR_MATCH_7BIT'] = _mask(mb, 'the 7-bit branch')
+    if not re.search(r'if\s*\(\s*nr\s*&\s*nr_match\s*\)\s*send_qp\(', sqb):
+        raise TranslateError('send_qp: use of nr_match not in the expected form')
     # ---- send_data decision (structure test; the model follows it)
     sd = func_body(src, 'send_data', rel)
     if not re.search(r'\(\s*!\s*\(\s*smtpext\s*&\s*esmtp_8bitmime\s*\)\s*&&\s*\(\s*recodeflag\s*&\s*recode_8bit\s*\)\s*\)\s*\|\|\s*\(\s*recodeflag\s*&\s*recode_long\s*\)', sd):
